@@ -68,3 +68,22 @@ Theorem C11_loaded_networks_have_nonnegative_figures : forall i perm nw,
   valid_instance_b i = true -> params_costs_nonneg (i_params i) -> load i perm = Ok nw -> net_extra_b nw = true.
 Proof. exact load_extra. Qed.
 Print Assumptions C11_loaded_networks_have_nonnegative_figures.
+
+(** the complete no-crash result (NoPanicFactsB.v): for every network loaded from a valid instance with non-negative
+    cost parameters, from a start schedule that is reachable by valid-path histories, respects the capacity of EVERY
+    depot (the overflow depot included) and starts its tours at listed depots, every schedule the local search can
+    visit has a neighbourhood that is generated without a crash — and again satisfies those conditions. The two
+    conditions are necessary (kernel-checked witnesses in the file). Before the repair "fix: a spawn without any free
+    depot is refused instead of panicking" the statement was false: the file keeps the walk as a regression example. *)
+From RS Require Import LoadFacts SwapsStmts2 EndToEndFacts NoPanicFactsB.
+Theorem C11_local_search_never_crashes : forall i perm nw,
+  valid_instance_b i = true -> params_costs_nonneg (i_params i) -> perm_ok i perm -> load i perm = Ok nw ->
+  forall s0, wreachable nw s0 -> NPB_lim.FullLimits nw s0 -> FKs nw s0 ->
+  forall s, NPB_comb.ls_reach nw s0 s -> no_crash (neighbors nw s) /\ NPB_lim.FullLimits nw s /\ FKs nw s.
+Proof. exact local_search_never_crashes_loaded. Qed.
+Print Assumptions C11_local_search_never_crashes.
+Theorem C11_neighbourhood_never_crashes : forall i perm nw,
+  valid_instance_b i = true -> params_costs_nonneg (i_params i) -> perm_ok i perm -> load i perm = Ok nw ->
+  forall s, wreachable nw s -> NPB_lim.FullLimits nw s -> FKs nw s -> no_crash (neighbors nw s).
+Proof. exact neighbors_no_crash_loaded. Qed.
+Print Assumptions C11_neighbourhood_never_crashes.
